@@ -8,8 +8,10 @@ A *case* (JSON-able) fixes the task configuration of ClientLoop.tla and a script
                                                   completed from its k-th call on
    "t0": ticks,                                   virtual clock when the client coroutine is started
    "script": [{"d1","svc","d2","out","w","ext"}], per request: client overhead before the wire request, service time,
-                                                  client overhead after it (ticks), outcome ok|api|transport|timeout,
-                                                  weight returned by the runner, external completion during the request
+                                                  client overhead after it (ticks), outcome ok|api|transport|timeout|soft
+                                                  (soft: the runner RETURNS success=False with its weight and unit, like a bulk with
+                                                  item errors; the others raise), weight returned by the runner, external completion
+                                                  during the request
    "incs": [ticks...],                            values returned by random.expovariate (Poisson schedule), in order
    "variant": {"tform": "num"|"str"|"interval", "none0": bool, "schedname": bool}   how the Task object spells the parameters}
 
@@ -131,6 +133,8 @@ def _make_fake_client_class():
             out = step["out"]
             if out == "ok":
                 return {"weight": step["w"], "unit": run.cfg["runit"]}
+            if out == "soft":
+                return {"weight": step["w"], "unit": run.cfg["runit"], "success": False}
             raise _error(out, k)
 
         async def close(self):
@@ -463,7 +467,8 @@ def _project(case, run, aborted, mult):
         else:
             ev.update(issue=-1, ws=-1, we=-1, ret=-1)
         ok = step["out"] == "ok"
-        ev.update(ok=ok, w=step["w"] if ok else 0, unit=cfg["runit"] if ok else "ops", ext=bool(lg["cset_ret"]) if lg is not None else False, inc=0)
+        returned = step["out"] in ("ok", "soft")  # the runner returned (soft: with success=False); otherwise it raised: weight 0, "ops"
+        ev.update(ok=ok, w=step["w"] if returned else 0, unit=cfg["runit"] if returned else "ops", ext=bool(lg["cset_ret"]) if lg is not None else False, inc=0)
         ev["xw"] = bool(lg is not None and lg["cset_issue"])
         ev["executed"] = lg is not None
         ev["nsamples"] = len(smp)
@@ -565,7 +570,7 @@ def behaviour_to_case(path):
         elif name == "Return":
             cur["d2"] = act["d"]
             cur["out"] = "ok" if act["ok"] else act["err"]
-            cur["w"] = act["w"] if act["ok"] else 0
+            cur["w"] = act["w"]  # 0 for the kinds that raise, the reported weight for ok and soft
             cur["ext"] = act["ext"]
             script.append(cur)
             cur = None
@@ -677,8 +682,8 @@ def random_case(rnd, exact):
             svc = {"fast": rnd.randint(1, max(2, mean // 2)), "mixed": rnd.randint(1, 2 * mean + 1), "slow": rnd.randint(mean, 3 * mean + 1)}[mode]
             d1, d2 = rnd.randint(0, 40), rnd.randint(0, 40)
         r = rnd.random()
-        outk = "ok" if r < 0.8 else rnd.choice(["api", "transport", "timeout"])
-        script.append({"d1": d1, "svc": svc, "d2": d2, "out": outk, "w": rnd.choice(weights) if outk == "ok" else 0, "ext": rnd.random() < 0.02})
+        outk = "ok" if r < 0.8 else rnd.choice(["api", "transport", "timeout", "soft", "soft"])
+        script.append({"d1": d1, "svc": svc, "d2": d2, "out": outk, "w": rnd.choice(weights) if outk in ("ok", "soft") else 0, "ext": rnd.random() < 0.02})
         if sched != "unthrottled" and rnd.random() < 0.03:
             script[-1]["extw"] = rnd.randint(1, max(1, mean))  # complete event set that many ticks after the client began to wait
     incs = [rnd.randint(0, 2 * mean + 1) for _ in range(60)]
@@ -925,8 +930,8 @@ def random_element_case(rnd):
             svc = rnd.randint(0, 2 * tps + 1)
             if d1 + svc + d2 == 0:
                 svc = 1
-            outk = "ok" if rnd.random() < 0.85 else rnd.choice(["api", "transport", "timeout"])
-            sc.append({"d1": d1, "svc": svc, "d2": d2, "out": outk, "w": rnd.choice([1, 1, 2]) if outk == "ok" else 0, "ext": False})
+            outk = "ok" if rnd.random() < 0.85 else rnd.choice(["api", "transport", "timeout", "soft"])
+            sc.append({"d1": d1, "svc": svc, "d2": d2, "out": outk, "w": rnd.choice([1, 1, 2]) if outk in ("ok", "soft") else 0, "ext": False})
         scripts[str(k)] = sc
     return {
         "src": "random-element",
@@ -1062,6 +1067,8 @@ def coverage_stats(items):
         "requests_behind_schedule": 0,
         "requests_that_slept_until_schedule": 0,
         "failed_requests": 0,
+        "failed_requests_reporting_a_weight": 0,
+        "throttled_runs_first_weight_from_a_failed_request": 0,
         "weight_changes": 0,
         "warmup_requests": 0,
         "runs_iteration_based": 0,
@@ -1124,7 +1131,11 @@ def coverage_stats(items):
                 st["poisson_requests"] += 1
             if not e["ok"]:
                 st["failed_requests"] += 1
-            elif e["w"] > 0:
+                if e["w"] > 0:
+                    st["failed_requests_reporting_a_weight"] += 1
+                    if lastw is None and cfg["sched"] != "unthrottled":
+                        st["throttled_runs_first_weight_from_a_failed_request"] += 1
+            if e["w"] > 0:
                 if lastw is not None and lastw != e["w"]:
                     st["weight_changes"] += 1
                 lastw = e["w"]
